@@ -248,6 +248,10 @@ class _LA:
         if m.dtype != object:
             return _np.linalg.inv(m)
         d = self.det(m)
+        # numpy raises LinAlgError for an exactly singular matrix: a branch of the code under test, decided like any other
+        for di in _np.asarray(d, dtype=object).ravel():
+            if bool(di == 0):
+                raise _np.linalg.LinAlgError("Singular matrix")
         out = _np.empty(m.shape, dtype=object)
         for i in range(3):
             for j in range(3):
